@@ -269,22 +269,32 @@ NotifRetFails(e) ==
 \cup (IF Hears("stop") /\ sn.stops # (IF e.name = "solve" THEN 1 ELSE 0) THEN {"NotifStopCount"} ELSE {})
 \cup (IF Hears("stop") /\ e.name = "solve" /\ sn.stops = 1 /\ sn.stopsol # SolKey(e.sol) THEN {"NotifStopFinal"} ELSE {})
 
+(* The solver's own precision guard: CalculateNextPointCoordinate raises ("x is outside of interval") when the rule's point cannot *)
+(* be told from an end of the chosen interval in double precision.  It is legitimate only when some interval has shrunk to the     *)
+(* resolution of doubles (here: below 2^-40); the iteration is then abandoned like a failed evaluation (the popped interval is     *)
+(* lost, the accuracy was already lowered), so the clauses that presuppose a completed call are waived - but a guard that fires    *)
+(* while every interval is wide is a failure (SpuriousGuard).                                                                       *)
+Guarded(e) == "guard" \in DOMAIN e /\ e.guard
+AtResolution == \E k \in 2..Len(spts) : QLeq(QSub(spts[k].x, spts[k - 1].x), QPow2(0 - 40))
+
 EvRet(e) ==
   LET refined == ((e.name = "solve" /\ scfg.refine) \/ e.name = "localref") /\ strials > 0
-      solveok == e.name = "solve" /\ ~sfault
+      g == Guarded(e)
+      solveok == e.name = "solve" /\ ~sfault /\ ~g
       f == SnapAll(e.snap)
            \cup CountFails(e.sol)
            \cup BestFails(e.sol, IF e.name \in {"solve", "localref"} THEN e.bf ELSE "skip", refined)
-           \cup (IF sfault \/ sn.lost = "unknown" THEN {} ELSE AccFails(e.sol))
-           \cup (IF e.raised = "none" THEN {} ELSE {IF sfault THEN "FailContained" ELSE "SolveReturns"})
-           \cup (IF e.name = "dgi" /\ ~sfault /\ strials - scall0 # e.k THEN {"DgiCount"} ELSE {})
+           \cup (IF g /\ ~AtResolution THEN {"SpuriousGuard"} ELSE {})
+           \cup (IF sfault \/ g \/ sn.lost = "unknown" THEN {} ELSE AccFails(e.sol))
+           \cup (IF e.raised = "none" \/ (g /\ e.name # "solve") THEN {} ELSE {IF sfault THEN "FailContained" ELSE "SolveReturns"})
+           \cup (IF e.name = "dgi" /\ ~sfault /\ ~g /\ strials - scall0 # e.k THEN {"DgiCount"} ELSE {})
            \cup (IF solveok /\ sn.lost # "unknown" /\ ~StopMaybe THEN {"StopEarly"} ELSE {})
            \cup (IF solveok /\ e.printed_exc THEN {"NoIntExc"} ELSE {})
            \cup (IF e.name = "solve" /\ e.raised = "none" /\ ~e.ret_is_results THEN {"SolveReturnsResults"} ELSE {})
-           \cup NotifRetFails(e) \cup CertFails(e)
+           \cup (IF g THEN {} ELSE NotifRetFails(e)) \cup CertFails(e)
   IN /\ Note(e, f)
      /\ spc' = "idle"
-     /\ sn' = [sn EXCEPT !.last = e.sol]
+     /\ sn' = [sn EXCEPT !.last = e.sol, !.lost = IF Guarded(e) THEN "unknown" ELSE @]
      /\ tstats' = [tstats EXCEPT !.cert = @ + (IF e.name = "solve" /\ ~sfault /\ HasLip /\ AccStop /\ Premise THEN 1 ELSE 0),
                                  !.accstops = @ + (IF e.name = "solve" /\ ~sfault /\ HasLip /\ AccStop THEN 1 ELSE 0)]
      /\ UNCHANGED <<scfg, spts, sM, sZ, sminD, strials, scall0, sfault, slocal>>
